@@ -30,7 +30,9 @@ RULE = ("Hypothesis-generated sessions of 1-6 concurrent to_thread.run_sync call
         "cancel scope or natively (Task.cancel()); a caller task issues one or several calls in a row and survives "
         "their cancellation; calls may wait for an earlier call to have entered its function; "
         "generated call_soon_threadsafe latencies (stock loop, also with the eager task factory); callbacks that shield "
-        "their work; thread functions that return exception objects; a sub-case with two event loops in one process; "
+        "their work; thread functions that return exception objects; calls that cancel a queued call in the step in which "
+        "they return; sub-cases with two event loops in one process and with an idle period longer than the workers' "
+        "idle limit; "
         "non-trivial = more concurrent calls than tokens, or a "
         "caller cancelled while its function runs; distinct = distinct canonical JSON")
 ASSUMPTIONS = [
@@ -39,6 +41,7 @@ ASSUMPTIONS = [
     "progress is awaited by polling thread events every millisecond; the only time-based verdict is a 30 s watchdog, "
     "re-run twice: only a hang on every run is a violation",
     "per-thread FIFO of call_soon_threadsafe callbacks is preserved by the delaying loop",
+    "the idle-expiry sub-case lowers the private constant WorkerThread.MAX_IDLE_TIME (10 s) to 0.15 s for its duration",
 ]
 TECHNIQUE = "Hypothesis-generated controller scripts over real worker threads with gates and injected loop latencies; safety invariants (fidelity, token bound, cancellation protocol)"
 LEVEL_TEXT = ("Safety invariants under controlled macro-schedules: result/exception identity and context propagation; the "
@@ -65,6 +68,9 @@ def budget(tier):
 
 
 def _gen(g):
+    if g.chance(3):
+        return {"kind": "idle", "config": g.choice(["S", "U"]), "warm": g.int(0, 3), "idle": g.choice([0.0, 0.05, 0.3, 0.3]),
+                "later": g.int(1, 3), "total": 1, "default": True, "delays": [], "calls": [], "ctl": []}
     if g.chance(4):
         return {"kind": "twoloops", "config": g.choice(["S", "U"]), "prior": g.int(0, 3), "overlap": g.chance(80),
                 "total": 1, "default": True, "delays": [], "calls": [], "ctl": []}
@@ -88,6 +94,14 @@ def _gen(g):
         return {"config": g.choice(["S", "S", "U", "E"]), "total": g.choice([1, 1, 2]), "default": g.chance(25),
                 "delays": [g.int(0, 3) for _ in range(g.int(0, 5))], "calls": calls, "ctl": ctl + rest,
                 "callers": [[0, 1], [2]], "after": {"2": 1} if g.chance(70) else {}}
+    if g.chance(6):
+        base = {"abandon": False, "mode": "value", "cb": None, "cc": False, "nest": g.bool(), "shielded": False}
+        cs = [dict(base, then_cancel=1), dict(base), dict(base)]
+        return {"config": g.choice(["S", "S", "U", "E"]), "total": 1, "default": g.chance(25),
+                "delays": [g.int(0, 3) for _ in range(g.int(0, 5))], "calls": cs,
+                "ctl": [["entered", 0], ["yield", g.int(1, 3)], ["open", 0], ["settle", 0], ["entered", 2], ["open", 2],
+                        ["open", 1]],
+                "callers": [[0], [1], [2]], "after": {"1": 0, "2": 0}}
     if g.chance(8):
         # targeted shape: the thread function calls back into the loop with a coroutine that shields its work; the
         # caller is cancelled while that work is parked; (optionally) another call queues for the token meanwhile
@@ -116,6 +130,9 @@ def _gen(g):
     callers = [[i for i in range(n) if owner[i] == c] for c in range(m)]
     callers = [c for c in callers if c]
     after = {str(i): g.int(0, i - 1) for i in range(1, n) if g.chance(20)}
+    for i in range(n):
+        if n >= 2 and g.chance(15):
+            calls[i]["then_cancel"] = g.choice([j for j in range(n) if j != i])
     return {"config": g.choice(["S", "S", "U", "E"]), "total": g.int(1, 3), "default": g.chance(25),
             "delays": [g.int(0, 3) for _ in range(g.int(0, 5))], "calls": calls, "ctl": ctl, "callers": callers,
             "after": after}
@@ -249,6 +266,14 @@ def run_once(case, out, stats):
                         try:
                             r = await to_thread.run_sync(fn, i, abandon_on_cancel=spec["abandon"], limiter=limiter_arg)
                             outcome[i] = ("value", r, time.monotonic(), i in gate_opened)
+                            tc = spec.get("then_cancel")
+                            if tc is not None and tc in scopes and tc in invoked and tc not in outcome \
+                                    and tc not in cancel_requested and not st["entered"][tc].is_set():
+                                # in the very loop step in which this call gave its token back: cancel a call that is
+                                # still queued for the limiter (it may just have been handed that token)
+                                cancel_requested.add(tc)
+                                stats["cancel_in_release_step"] += 1
+                                scopes[tc].cancel()
                         except Boom as e:
                             outcome[i] = ("raised", e, time.monotonic(), i in gate_opened)
                         except asyncio.CancelledError as e:
@@ -528,8 +553,66 @@ def run_twoloops(case, out, stats):
             out.bad("wrong-result", "second-loop", f"{case}: {r!r}")
 
 
+def run_idle_expiry(case, out, stats):
+    """Workers left idle for longer than WorkerThread.MAX_IDLE_TIME are pruned at the next call, which must still run.
+    The constant (10 s) is lowered for the duration of the case: the one private knob this check touches."""
+    import anyio._backends._asyncio as backend
+
+    wt = getattr(backend, "WorkerThread", None)
+    if wt is None or not hasattr(wt, "MAX_IDLE_TIME"):
+        out.discard = True
+        return
+    box = {}
+    gates = [threading.Event() for _ in range(case["warm"])]
+
+    def plain(i, wait):
+        if wait:
+            gates[i].wait(5)
+        return ("v", i)
+
+    async def main():
+        async with create_task_group() as tg:
+            for i in range(case["warm"]):
+                tg.start_soon(to_thread.run_sync, plain, i, True)
+            await anyio.sleep(0.01)
+            for g_ in gates:
+                g_.set()
+        await anyio.sleep(case["idle"])
+        res = []
+        for i in range(case["later"]):
+            try:
+                with anyio.fail_after(10):
+                    res.append(await to_thread.run_sync(plain, 100 + i, False))
+            except BaseException as e:  # noqa: BLE001
+                res.append(("raised", type(e).__name__, str(e)[:80]))
+        box["res"] = res
+
+    old = wt.MAX_IDLE_TIME
+    wt.MAX_IDLE_TIME = 0.15
+    try:
+        if case["config"] == "U":
+            import uvloop
+            anyio.run(main, backend_options={"loop_factory": uvloop.new_event_loop})
+        else:
+            anyio.run(main)
+    finally:
+        wt.MAX_IDLE_TIME = old
+    stats["idle_expiry"] += 1
+    for i, r in enumerate(box.get("res", [])):
+        if r != ("v", 100 + i):
+            out.bad("wrong-result", "after-idle-expiry", f"{case}: call {i} after the idle period gave {r!r}")
+    if len(box.get("res", [])) != case["later"]:
+        out.bad("call-never-ended", "after-idle-expiry", f"{case}")
+
+
 def run_case(case) -> Outcome:
     out = Outcome()
+    if case.get("kind") == "idle":
+        stats = {"idle_expiry": 0}
+        run_idle_expiry(case, out, stats)
+        out.nontrivial = case["warm"] >= 1 and case["idle"] > 0.15
+        out.labels = ["idle-expiry", "config-" + case["config"]]
+        return out
     if case.get("kind") == "twoloops":
         stats = {"two_loops": 0}
         run_twoloops(case, out, stats)
@@ -538,7 +621,8 @@ def run_case(case) -> Outcome:
         return out
     stats = dict.fromkeys(["cancelled_while_running", "cancelled_before_start", "more_calls_than_tokens",
                            "watchdog_rerun", "native_cancel_while_running", "caller_with_several_calls",
-                           "stall_rerun", "settle_checks", "callback_parked_behind_shield"], 0)
+                           "stall_rerun", "settle_checks", "callback_parked_behind_shield",
+                           "cancel_in_release_step"], 0)
     for attempt in range(3):
         trial = Outcome()
         try:
